@@ -307,8 +307,15 @@ def history(seed, hk, nops, maxpool=4):
                 if e["g"] and len(f) + len(other) > 300:
                     continue
 
+                aug = rng.random() < 0.5
+
                 def call():
-                    r = f + other
+                    if aug:
+                        # augmented assignment on an alias: the frame the alias names must stay what it was
+                        r = f
+                        r += other
+                    else:
+                        r = f + other
                     if dst == len(pool):
                         pool.append(r)
                     else:
